@@ -3,6 +3,7 @@ CONSTANTS
   FullMaskSize = 3
   Precisions = {2}
   LabelSets <- LabelsQuick
+  StreamShapes <- ShapesQuick
   CommentSets <- CommentsQuick
 SPECIFICATION Spec
 CHECK_DEADLOCK FALSE
@@ -14,4 +15,6 @@ INVARIANT L_Regenerate
 INVARIANT L_Array
 INVARIANT L_ArrayFileAsSpectrum
 INVARIANT L_OldFileAsArray
+INVARIANT L_Stream
+INVARIANT L_StreamWritten
 INVARIANT L_Pickle
